@@ -239,11 +239,8 @@ func (t *QCPendingTree) insertOrphan(node *ProposalNode) error {
 		return nil // 重复退出
 	}
 	t.OrphanMap[utils.F(node.In.GetProposalId())] = true
-	if t.OrphanList.Len() == 0 {
-		t.OrphanList.PushBack(node)
-		return nil
-	}
-	// 遍历整个Sli，查看是否能够挂上
+	// 第一遍遍历整个Sli: 清理已经失效的孤儿树, 并把所有以node为父节点的头节点都挂到node下面
+	// (不能只挂第一个: 其余的头节点之后不会再被adoptOrphans发现, 会永远留在孤儿数组里)
 	ptr := t.OrphanList.Front()
 	for ptr != nil {
 		curPtr := ptr
@@ -257,16 +254,19 @@ func (t *QCPendingTree) insertOrphan(node *ProposalNode) error {
 			t.OrphanList.Remove(curPtr)
 			continue
 		}
-		// 查看头节点是否是node的儿子, 直接在头部插入
+		// 查看头节点是否是node的儿子, 是则反转挂在node下面
 		if bytes.Equal(n.In.GetParentProposalId(), node.In.GetProposalId()) {
 			node.Sons = append(node.Sons, n)
 			t.OrphanList.Remove(curPtr)
-			t.OrphanList.PushBack(node)
-			return nil
 		}
-		// 否则遍历该树试图挂在子树上面
-		parent := DFSQuery(n, node.In.GetParentProposalId())
-		if parent != nil {
+	}
+	// 第二遍: 若node的父节点在某棵孤儿树中, 则node(连同刚挂上的子树)挂在父节点下
+	for ptr = t.OrphanList.Front(); ptr != nil; ptr = ptr.Next() {
+		n, ok := ptr.Value.(*ProposalNode)
+		if !ok {
+			return errors.New("QCPendingTree::insertOrphan::element type invalid.")
+		}
+		if parent := DFSQuery(n, node.In.GetParentProposalId()); parent != nil {
 			parent.Sons = append(parent.Sons, node)
 			return nil
 		}
